@@ -3,7 +3,7 @@
     exercised by the correspondence stream, not modelled). *)
 From Coq Require Import String.
 From Coq Require Import List ZArith NArith Bool.
-From Cambrian Require Import Base.F64 SourceFacts Syntax SpecBuild SpecProofs.
+From Cambrian Require Import Base.F64 SourceFacts Syntax SpecBuild SpecProofs SpecFaithful.
 Import ListNotations.
 Local Open Scope string_scope.
 
@@ -68,3 +68,40 @@ Example typedefs_hoisted_and_shadowed :
                                     (YStr "b", YMap [(YStr "type", YStr "t")])])])
   = Ok (SSub [("a", SBool true); ("typeDefault", SConst); ("inner", SSub [("b", SConst)])]).
 Proof. vm_compute. reflexivity. Qed.
+
+(** ** every declared parameter present.  For an accepted sub (inline or [type: sub]): the members
+    are exactly the document's entries whose string key is neither [type] nor a type definition;
+    the spec under a name is what the last entry of that name builds to, in the sub's own scope
+    (outer definitions plus the sub's definitions, whatever their position: hoisting).  Likewise the
+    options of a variant are its entries other than [type] and [init]. *)
+Theorem every_declared_parameter_is_present :
+  forall f e m ms,
+    build_node (S f) e (YMap m) = Ok (SSub ms) ->
+    (yget "type" m = None \/ exists t, yget "type" m = Some t /\ as_str t = Some "sub"%string) ->
+    forall k, (exists s, slookup k ms = Some s) <-> (exists v, last_decl sub_skip m k = Some v).
+Proof. exact declared_iff_member. Qed.
+Print Assumptions every_declared_parameter_is_present.
+
+Theorem members_are_built_in_the_subs_scope :
+  forall f e m ms,
+    build_node (S f) e (YMap m) = Ok (SSub ms) ->
+    (yget "type" m = None \/ exists t, yget "type" m = Some t /\ as_str t = Some "sub"%string) ->
+    exists e', defs_loop (build_node f) m e = Ok e' /\
+      forall k, slookup k ms = match last_decl sub_skip m k with
+                               | Some v => built (build_node f e') v
+                               | None => None
+                               end.
+Proof. exact sub_members_are_the_declared_ones. Qed.
+Print Assumptions members_are_built_in_the_subs_scope.
+
+Theorem variant_options_are_the_declared_entries :
+  forall f e m os i,
+    build_node (S f) e (YMap m) = Ok (SVariant os i) ->
+    (exists t, yget "type" m = Some t /\ as_str t = Some "variant"%string) ->
+    forall k, slookup k os = match last_decl variant_skip m k with
+                             | Some v => built (build_node f e) v
+                             | None => None
+                             end.
+Proof. exact variant_options_are_the_declared_ones. Qed.
+Print Assumptions variant_options_are_the_declared_entries.
+
